@@ -179,8 +179,35 @@ Definition kkt_ok (eps : dy) (p : prob) (s : sol) : bool :=
   (* dual variables of infinite-bound rows vanish *)
   && dleb (maxabs (map2 (fun bi a => if finite_row bi then d0 else a) b z)) (dmul eps sc_d).
 
+(** ---------- second, independent tie: the two RETURNED points against each other ----------
+    Nothing reported by the solver is used here: primal and dual objectives of both returned
+    points are recomputed exactly from (x, z) and the ORIGINAL data.  Weak duality holds
+    between ANY primal-feasible and ANY dual-feasible point, so the dual value of the run with
+    decomposition must not exceed the primal value of the run without, and vice versa, up to
+    the feasibility slack of the points; and the two primal values must agree. *)
+Definition pobj_of (p : prob) (s : sol) : dy :=
+  let x := so_x s in dadd (dmul (D 1 (-1)) (ddot x (mulv (pr_Prows p) x))) (ddot (pr_q p) x).
+Definition dobj_of (p : prob) (s : sol) : dy :=
+  let x := so_x s in let b := pr_b p in
+  dsub (dneg (dmul (D 1 (-1)) (ddot x (mulv (pr_Prows p) x)))) (ddot (mask_rows b b) (mask_rows b (so_z s))).
+Definition cross_scale (p : prob) (a c : sol) : dy :=
+  let b := pr_b p in
+  let two := D 1 1 in
+  let sc s := dadd d1 (dadd (maxabs (pr_q p)) (dadd (dadd (maxabs (so_x s)) (dmul two (maxabs (mask_rows b (so_s s))))) (maxabs (so_z s)))) in
+  let g := dadd d1 (dmin (dabs (pobj_of p a)) (dabs (pobj_of p c))) in
+  dadd g (dmul (dadd d1 (dsumabs (mask_rows b b))) (dadd (sc a) (sc c))).
+(** codes 16: the reference run (decomposition off) itself fails the exact KKT test;
+          17: recomputed primal objectives of the two returned points differ;
+          18: weak duality violated across the two runs *)
+Definition c18_cross (eps : dy) (p : prob) (on off : sol) : N :=
+  let tol := dmul eps (cross_scale p on off) in
+  if negb (lens_ok p off && kkt_ok eps p off) then 16%N
+  else if negb (dleb (dabs (dsub (pobj_of p on) (pobj_of p off))) tol) then 17%N
+  else if negb (dleb (dobj_of p on) (dadd (pobj_of p off) tol) && dleb (dobj_of p off) (dadd (pobj_of p on) tol)) then 18%N
+  else 0%N.
+
 (** codes: 0 ok; 10 lengths; 11 verdict differs; 12 objective differs; 13 KKT residuals;
-    14 s not in cone; 15 z not in dual cone *)
+    14 s not in cone; 15 z not in dual cone; 16-18 see [c18_cross] *)
 Definition c18_e2e (eps : dy) (p : prob) (on off : sol) (complete : bool)
            (cliques : list (N * list (list N))) : N :=
   if negb (lens_ok p on) then 10%N
@@ -193,6 +220,6 @@ Definition c18_e2e (eps : dy) (p : prob) (on off : sol) (complete : bool)
            else if negb (in_cones eps false (pr_cones p) (mask_rows (pr_b p) (so_s on))) then 14%N
            else if negb (if complete then in_cones eps true (pr_cones p) (so_z on)
                          else z_cliques_ok eps (pr_cones p) (so_z on) cliques) then 15%N
-           else 0%N
+           else c18_cross eps p on off
        | _ => 0%N
        end.
